@@ -26,7 +26,9 @@ unsafe impl<T: ?Sized, R: RawRwLock> RawLock for RwLock<T, R> {
 
 		// if the closure unwraps, then the mutex will be killed
 		let this = AssertUnwindSafe(self);
-		handle_unwind(|| this.raw.lock_exclusive(), || self.poison())
+		handle_unwind(|| this.raw.lock_exclusive(), || self.poison());
+		#[cfg(happylock_verif)]
+		crate::verif_hook::rec("acq", 'w', self as *const Self as *const () as usize, true);
 	}
 
 	unsafe fn raw_try_write(&self) -> bool {
@@ -36,12 +38,17 @@ unsafe impl<T: ?Sized, R: RawRwLock> RawLock for RwLock<T, R> {
 
 		// if the closure unwraps, then the mutex will be killed
 		let this = AssertUnwindSafe(self);
-		handle_unwind(|| this.raw.try_lock_exclusive(), || self.poison())
+		let ok = handle_unwind(|| this.raw.try_lock_exclusive(), || self.poison());
+		#[cfg(happylock_verif)]
+		crate::verif_hook::rec("try", 'w', self as *const Self as *const () as usize, ok);
+		ok
 	}
 
 	unsafe fn raw_unlock_write(&self) {
 		// if the closure unwraps, then the mutex will be killed
 		let this = AssertUnwindSafe(self);
+		#[cfg(happylock_verif)]
+		crate::verif_hook::rec("rel", 'w', self as *const Self as *const () as usize, true);
 		handle_unwind(|| this.raw.unlock_exclusive(), || self.poison())
 	}
 
@@ -53,7 +60,9 @@ unsafe impl<T: ?Sized, R: RawRwLock> RawLock for RwLock<T, R> {
 
 		// if the closure unwraps, then the mutex will be killed
 		let this = AssertUnwindSafe(self);
-		handle_unwind(|| this.raw.lock_shared(), || self.poison())
+		handle_unwind(|| this.raw.lock_shared(), || self.poison());
+		#[cfg(happylock_verif)]
+		crate::verif_hook::rec("acq", 'r', self as *const Self as *const () as usize, true);
 	}
 
 	unsafe fn raw_try_read(&self) -> bool {
@@ -63,12 +72,17 @@ unsafe impl<T: ?Sized, R: RawRwLock> RawLock for RwLock<T, R> {
 
 		// if the closure unwraps, then the mutex will be killed
 		let this = AssertUnwindSafe(self);
-		handle_unwind(|| this.raw.try_lock_shared(), || self.poison())
+		let ok = handle_unwind(|| this.raw.try_lock_shared(), || self.poison());
+		#[cfg(happylock_verif)]
+		crate::verif_hook::rec("try", 'r', self as *const Self as *const () as usize, ok);
+		ok
 	}
 
 	unsafe fn raw_unlock_read(&self) {
 		// if the closure unwraps, then the mutex will be killed
 		let this = AssertUnwindSafe(self);
+		#[cfg(happylock_verif)]
+		crate::verif_hook::rec("rel", 'r', self as *const Self as *const () as usize, true);
 		handle_unwind(|| this.raw.unlock_shared(), || self.poison())
 	}
 }
